@@ -38,9 +38,23 @@ def obligations(tier):
               bounds='begin = every minute of every day 1900..2086; end = begin + 1..20000 minutes (both sides dated) or any clock time later on that day (one side dated)',
               encodes=[B + 'base_datetimeperiod:BaseDateTimePeriodParser.merge_two_time_points', B + 'utilities:DateTimeFormatUtil.luis_time_span'],
               stubs=['date-time / time extractors return fixed spans; their parsers return the symbolic instants with their TIMEX (C06/C07 decide the real ones)'])]
+    obs.append(Ob('O10.8-chinese-year-to-year', 'sx', 'harness.C10zh:h_year_to_year', twin='harness.C10zh:t_year_to_year', slices=[{'w1': a, 'w2': b} for a in (2, 4) for b in (2, 4)], timeout=t,
+                  descr="Chinese year-to-year period ('98年到05年', '1995年到2005年'): endpoints are 1 January of the two years (two-digit years 90..99 -> 19yy, 00..19 -> 20yy), the TIMEX endpoints are those dates and its duration PnY is end minus start",
+                  bounds='years 1000..2999 (four digits) / 0..99 (two digits), both symbolic; one slice per pair of widths',
+                  encodes=['recognizers_date_time.date_time.chinese.dateperiod_parser:ChineseDatePeriodParser._parse_year_to_year', 'recognizers_date_time.date_time.chinese.dateperiod_parser:ChineseDatePeriodParser.__sanitize_year'],
+                  stubs=['FakeRegex/FakeMatch: the year-to-year pattern matches and the year pattern finds two year groups', 'the CJK number parser inside the period parser returns the symbolic year for the group text']))
+    rd = [{'word': w, 'unit': u, 'nmax': 8 if tier == 'quick' else 60} for w in ('next', 'past') for u in (('H',) if tier == 'quick' else ('H', 'M', 'S'))]
+    if tier == 'thorough':
+        rd += [{'word': w, 'unit': 'H', 'nmax': 30} for w in ('last', 'previous')]
+    obs.append(Ob('O10.9-relative-duration', 'sx', 'harness.C10b:h_relative_duration', twin='harness.C10b:t_relative_duration', slices=rd, timeout=max(t, 240),
+                  descr="'next / past N hours' through the real BaseDateTimePeriodParser.parse_duration (real English prefix patterns) around a symbolic reference instant: the range is [reference, reference + N units] resp. "
+                        '[reference - N units, reference] and the TIMEX endpoints are exactly the resolved start and end (also across midnight, month and year ends)',
+                  bounds='reference = every second 1950..2090 (symbolic day number, h, m, s); N = 1..8 (thorough 1..60; concretised by the code\'s float()) hours (thorough: minutes, seconds; last / previous)',
+                  encodes=['recognizers_date_time.date_time.base_datetimeperiod:BaseDateTimePeriodParser.parse_duration'],
+                  stubs=['duration extractor / parser return one duration of N units; no cardinal numbers in the prefix']))
     from props import _corpus
     import json as _json
-    slices, counts, _ = _corpus.slices(tier, 'arith', tag='range3', quick_step=6, quick_cap=14)
+    slices, counts, _ = _corpus.slices(tier, 'arith', tag='range3', quick_cap=12)
     obs.append(Ob('O10.7-corpus-range-arithmetic', 'sx', 'harness.apidt:h_wellformed', twin=None, slices=slices, timeout=90 if tier == 'quick' else 240,
                   descr='API level, symbolic reference datetime: on the DateTimeModel Specs inputs of each culture that yield a (start,end,duration) TIMEX (inputs only; expected outputs not consulted), for EVERY reference '
                         'datetime: whenever both endpoints of the TIMEX are definite, end minus start equals the stated duration (days, weeks, months / years between like days, hours / minutes / seconds; a time range may cross midnight)',
